@@ -330,6 +330,100 @@ func c18Run(limit int, hist []c18Letter) explore.Result {
 	return res
 }
 
+// c18RunRejected: what a validator was handed for logins it REJECTED (and for connections that broke off during the
+// start-up) is retained like everything else; then further connections arrive on the same server.
+func c18RunRejected(first []string, later int) explore.Result {
+	var res explore.Result
+	res.Outcome = "retained"
+	res.Key = fmt.Sprint("rejected", first, later)
+	st := &c18State{}
+	parse := func(ctx context.Context, q string) (wire.PreparedStatements, error) {
+		return wire.Prepared(wire.NewStatement(func(ctx context.Context, w wire.DataWriter, params []wire.Parameter) error { return w.Complete("OK") })), nil
+	}
+	mine := 0
+	validate := func(ctx context.Context, db, user, pw string) (context.Context, bool, error) {
+		if strings.HasPrefix(user, "first-") {
+			st.keepString("password of "+user, pw)
+			st.keepString("username "+user, user)
+			st.keepString("database of "+user, db)
+			st.keepMap("client parameters of "+user, wire.ClientParameters(ctx))
+			mine++
+		}
+		return ctx, pw == "the-good-password-0123456789", nil
+	}
+	srv, err := harness.NewServer(parse, wire.SessionAuthStrategy(wire.ClearTextPassword(validate)))
+	if err != nil {
+		res.Engine = err.Error()
+		return res
+	}
+	defer srv.Stop()
+	for i, how := range first {
+		c := srv.Connect()
+		user := fmt.Sprintf("first-%d-mallory-the-intruder", i)
+		c.Step(pgproto.Startup("user", user, "database", "database-of-the-first-connection", "application_name", "retention-check"))
+		switch how {
+		case "rejected":
+			c.Step(pgproto.Password("guessed-password-0001"))
+		case "accepted, then a query":
+			c.Step(pgproto.Password("the-good-password-0123456789"))
+			c.Step(pgproto.Query("select 1"))
+		case "rejected with a pipelined query":
+			c.Step(pgproto.Cat(pgproto.Password("guessed-password-0002"), pgproto.Query("select 2")))
+		}
+		c.End()
+		if d := st.check(); d != "" {
+			res.Fail("retained-data-overwritten", fmt.Sprintf("connection %d (%s) has ended: %s", i+1, how, d))
+			return res
+		}
+	}
+	for i := 0; i < later; i++ {
+		c := srv.Connect()
+		c.Step(pgproto.Startup("user", "alice", "database", "postgres", "application_name", strings.Repeat("z", 20+7*i)))
+		c.Step(pgproto.Password("correct-horse-battery-staple"))
+		c.Step(pgproto.Password("the-good-password-0123456789"))
+		c.Step(pgproto.Query("SELECT " + strings.Repeat("q", 30+11*i)))
+		if d := st.check(); d != "" {
+			res.Fail("retained-data-overwritten", fmt.Sprintf("logins %v (what the validator was handed is retained), then connection %d of %d later ones: %s", first, i+1, later, d))
+			return res
+		}
+		if i%2 == 0 {
+			c.End()
+		}
+	}
+	res.Trans = []string{"validator retains|later connections|unchanged"}
+	return res
+}
+
+// c18RunUnterminated: a Query whose text lacks its terminator. If the server hands such a text to the parser at all,
+// the text is retained like any other while the following messages arrive.
+func c18RunUnterminated(n int, followers int) explore.Result {
+	var res explore.Result
+	res.Outcome = "retained"
+	res.Key = fmt.Sprint("unterminated", n, followers)
+	st := &c18State{}
+	parse := func(ctx context.Context, q string) (wire.PreparedStatements, error) {
+		st.keepString("query text "+clip(q), q)
+		return wire.Prepared(wire.NewStatement(func(ctx context.Context, w wire.DataWriter, params []wire.Parameter) error { return w.Complete("OK") })), nil
+	}
+	one, err := harness.StartOne(parse)
+	if err != nil {
+		res.Engine = err.Error()
+		return res
+	}
+	defer one.Stop()
+	one.Step(pgproto.Startup("user", "u"))
+	one.Step(pgproto.Query("terminated text " + strings.Repeat("t", n)))
+	_, stt := one.Step(pgproto.Msg('Q', []byte("INSERT unterminated text "+strings.Repeat("u", n))))
+	for i := 0; i < followers && stt == memnet.Parked; i++ {
+		_, stt = one.Step(pgproto.Query(fmt.Sprintf("SELECT later message %d %s", i, strings.Repeat("s", 9*i))))
+		if d := st.check(); d != "" {
+			res.Fail("retained-data-overwritten", fmt.Sprintf("a Query of %d bytes without its terminator, then %d further queries: %s", n+25, i+1, d))
+			return res
+		}
+	}
+	return res
+}
+
 // c18LongLetters: queries of 8 ... 70000 bytes under a 128 KiB limit: histories of these cross every allocation
 // boundary a reader may use (4 KiB blocks, 64 KiB slabs), with small messages in between and behind.
 func c18LongLetters() []c18Letter {
@@ -371,6 +465,28 @@ func c18Depth(tier string) int {
 }
 
 func c18Enumerate(tier string, emit explore.Emit) {
+	hows := []string{"rejected", "accepted, then a query", "rejected with a pipelined query"}
+	forShapes(len(hows), 2, func(sh []int) {
+		if len(sh) == 0 {
+			return
+		}
+		var first []string
+		for _, s := range sh {
+			first = append(first, hows[s])
+		}
+		for _, later := range []int{1, 3, 9} {
+			later := later
+			emit(explore.Case{Family: "retention/logins", Size: 5, Desc: func() any { return map[string]any{"first_connections": first, "later_connections": later} },
+				Run: func() explore.Result { return c18RunRejected(first, later) }})
+		}
+	})
+	for _, n := range []int{0, 40, 1000, 4000} {
+		for _, f := range []int{1, 3, 8} {
+			n, f := n, f
+			emit(explore.Case{Family: "retention/limit=8192", Size: 6, Desc: func() any { return map[string]any{"query_without_terminator_bytes": n + 25, "queries_behind_it": f} },
+				Run: func() explore.Result { return c18RunUnterminated(n, f) }})
+		}
+	}
 	{
 		letters := c18LongLetters()
 		depth := 5
